@@ -611,7 +611,7 @@ SUBS = [
     Sub(name="interval", body=interval_body, strategy=lambda ctx: interval_case(ctx), quick=400, thorough=40000,
         lanes=("f64", "f32"), f32_fraction=0.4,
         rule="10 bounds_for_center / bounds_for_anchor / anchor_coordinate / invalid-size queries per drawn grid"),
-    Sub(name="metrics", body=metrics_body, strategy=lambda ctx: metrics_case(ctx), quick=250, thorough=20000,
+    Sub(name="metrics", body=metrics_body, strategy=lambda ctx: metrics_case(ctx), quick=150, thorough=8000,
         lanes=("f64", "f32"), f32_fraction=0.4, rule="extents, widths, centres, areas, volumes, sub-grid of a drawn slice"),
     Sub(name="policy", body=policy_body, strategy=lambda ctx: policy_case(ctx), quick=250, thorough=20000,
         lanes=("f64", "f32"), f32_fraction=0.3, rule="UniformGrid / QuasiUniformGrid policy helpers"),
